@@ -51,6 +51,7 @@ EVENTS = {
     "raise_systemexit_2": ("raise SystemExit(2)", 2),
     "builtin_exit_2": ("exit(2)", 2),
     "exception": ("raise RuntimeError('x')", 1),
+    "exception_falsy": ("raise type('EmptyReport', (Exception,), {'__len__': lambda self: 0})()", 1),
     "keyboardinterrupt": ("raise KeyboardInterrupt()", -2),      # CPython re-raises SIGINT: the process dies by signal 2
     "os_exit_0": ("os._exit(0)", 0),
 }
